@@ -382,7 +382,10 @@ def microdvd_strategy(tier):
                              st.builds(lambda a, b: f"{a}.{b}", st.integers(1, 120),
                                        st.integers(1, 999).map(str)),
                              st.builds(lambda a, b: f"{a}.{b:03d}", st.integers(1, 120),
-                                       st.integers(1, 999))))
+                                       st.integers(1, 999)),
+                             # rates written out to many decimals (24000/1001 = 23.976023976...)
+                             st.sampled_from(["23.976023976", "29.97002997", "59.9400599401", "23.9760239",
+                                              "14.9850149850", "24.0000001", "25.00000004"])))
         n = draw(st.integers(1, 8))
         maxf = int(999 * 3600 * 24)
         step = _exact_step(fps or "25")
@@ -397,6 +400,12 @@ def microdvd_strategy(tier):
         if draw(st.integers(0, 3)) == 0:
             # the first cue(s) on the very first frames - {1}{1}, {1}{2}, {2}{2} ...
             cues[0]["a"], cues[0]["b"] = draw(st.sampled_from([[1, 1], [1, 1], [1, 2], [2, 2], [0, 1]]))
+        elif fps and len(fps.split(".")[-1]) > 6:
+            # far enough in for a relative error of 1e-8 to reach a microsecond
+            cues[-1]["a"] = max(cues[-1]["a"], 86400)
+            cues[-1]["b"] = max(cues[-1]["b"], cues[-1]["a"])
+            for c in cues:
+                c["a"], c["b"] = min(c["a"], cues[-1]["a"]), min(c["b"], cues[-1]["b"])
             fr0 = cues[0]["b"]
             for c in cues[1:]:
                 c["a"], c["b"] = max(c["a"], fr0), max(c["b"], fr0)
